@@ -764,6 +764,12 @@ def _decorate_inline(context, fn):
         def go(*args, **kw):
             return dec(context, *args, **kw)
 
+        # a Namespace made of callables (the "caller" of a call with
+        # content) finds them by name
+        try:
+            go.__name__ = render_fn.__name__
+        except (AttributeError, TypeError):
+            pass
         return go
 
     return decorate_render
